@@ -24,7 +24,10 @@ use core::future::Future;
 use core::pin::Pin;
 use core::time::Duration;
 use octseq::Octets;
+#[cfg(not(feature = "verif-hooks"))]
 use std::time::Instant;
+#[cfg(feature = "verif-hooks")]
+use tokio::time::Instant;
 use tokio::io::{AsyncRead, AsyncReadExt, AsyncWrite, AsyncWriteExt};
 use tokio::sync::{mpsc, oneshot};
 use tokio::time::sleep;
